@@ -32,6 +32,7 @@ func c08(p Params) func() {
 	closer := p.Get("closer", "session")
 	yields := p.Int("yields", 1)
 	proto := p.Get("proto", "raw")
+	idle := p.Int("idle", 0)
 	return func() {
 		begin()
 		a := world.NewPeer("json")
@@ -50,6 +51,13 @@ func c08(p Params) func() {
 			return &r, nil
 		})
 		sa, sb, link := world.Connect(a, b, world.Proto(proto))
+		// further idle sessions of the closing peer (Peer.Close closes all of them concurrently)
+		for i := 0; i < idle; i++ {
+			_, sc := vnet.Pipe(vnet.NewAddr(), vnet.NewAddr())
+			if _, st := a.ServeConn(sc, world.Proto(proto)); !st.OK() {
+				vsched.Failf("ServeConn (idle session): %v", st)
+			}
+		}
 		repliesOnWire := 0
 		link.A.OnWrite = func(c *vnet.Conn, data []byte) {
 			// a protocol may write one frame in several pieces: count the complete REPLY frames in everything written so far
